@@ -1,6 +1,6 @@
 // adt.MakeBufferPool(min, max): "New slices are allocated with the specified minimum capacity ... Slices that are
 // larger than the specified maximum do not reenter the pool."  The cleanup hook returns nil for an oversized slice
-// (adt/pool.go:141-146) and Pool.Put puts that nil slice into the pool: the next Get returns capacity 0.
+// (adt/pool.go:138-143) and Pool.Put puts that nil slice into the pool: the next Get returns capacity 0.
 // go run ./adt_bufferpool_nil   - exit 1 when the divergence is present
 package main
 
